@@ -7,5 +7,6 @@ func main() {
 	Main(map[string]CmdFn{
 		"gen": func(a []string) int { return RunGen(gens, a) },
 		"c01": c01,
+		"c10": c10,
 	})
 }
